@@ -243,6 +243,16 @@ theorem run_noDelivery (c : Cfg) (ts : List Tok) : NoDeliveryBeforeHandshake c (
     simpa using this
 
 
+theorem runV2_noDelivery (c : Cfg) (ts : List Tok) : NoDeliveryBeforeHandshake c (runV2 c ts).2 := by
+  apply noDelivery_of_scan
+  unfold runV2
+  simp only []
+  rw [scan_append]
+  refine ⟨?_, ?_⟩
+  · unfold init; cases c.inbound <;> simp [scan]
+  · have := runFrom_scan c ts (init c).1 ([] ++ (init c).2) (by simpa using R_init c)
+    simpa using this
+
 /-! ### closed is absorbing; the negotiated version is fixed by the first message -/
 
 theorem runFrom_closed (c : Cfg) : ∀ (ts : List Tok) (s : St), s.phase = .closed →
